@@ -2,29 +2,40 @@
 
 Generated federations (key-descriptor layouts in every order) x claimed issuer
 x actual signing key x embedded certificate x only_use_keys_in_metadata,
-through the real SP with real signatures vs Model.CertSelect."""
+through the real SP with real signatures vs Model.CertSelect; and WHICH issuer:
+signed elements at every place the SP verifies one (Response, plain assertion,
+assertion inside an EncryptedAssertion, assertion inside an EncryptedAssertion
+of an Advice, stand-alone protocol messages, direct check_signature calls with
+an issuer= argument) x (outer issuer, own issuer, signing key), and operation
+histories over several long-lived Saml2Client objects, vs Model.IssuerSel."""
 import copy
 import itertools
+import json
 
 import env
 import pipeline
 import resp
+import c03_docs as D
+from c03_docs import E
 from pipeline import A, R
-from core import Exn, cstr, cbool, copt, clist
+from core import Exn, call, cstr, cbool, copt, clist
 from env import NOW, IDP_ID, IDP2_ID
 from saml2_tophat import md, saml, samlp, sigver, class_name
 from saml2_tophat.config import IdPConfig, SPConfig
 
 CLAIM = {
-    "text": "Coq theorems (Props/C03.v) over the model of MetaData.certs and the certificate selection + per-certificate loop of _check_signature, for every federation, issuer, embedded certificate list and signing key: with only_use_keys_in_metadata on, a successful check implies the signer's key is a certificate of a key descriptor of the ISSUER's own entity whose use is signing or absent (exact characterisation of certs(): never an encryption-only descriptor, whatever the descriptor order; never another entity's); unknown issuer / no signing key => MissingKey even with an embedded certificate; foreign key => SignatureError; with the setting off the embedded certificates are used iff metadata yields none. The loop is the C20 model instantiated with a tool that reports success iff the certificate holds the signer's key. Tie: generated federations x issuer x key x embedded x setting on implementation (real RSA through the stand-in) and model.",
-    "note": "Trusted: Coq kernel + vm_compute; hand-written model tied to the code by correspondence (exhaustive over the listed small federations); stand-in xmlsec1 verifies with the certificate file pysaml2 hands it; certificates are identified with their keys (cert n holds key n); certificate-chain validation (cert_handler) is off as in the default configuration.",
-    "technique": "machine-checked proof (Coq, induction over metadata lists) + correspondence over generated federations + oracle",
+    "text": "Coq theorems (Props/C03.v) over (1) the model of MetaData.certs and the certificate selection + per-certificate loop of _check_signature, for every federation, issuer, embedded certificate list and signing key: with only_use_keys_in_metadata on, a successful check implies the signer's key is a certificate of a key descriptor of the ISSUER's own entity whose use is signing or absent (exact characterisation of certs(): never an encryption-only descriptor, whatever the descriptor order; never another entity's); unknown issuer / no signing key => MissingKey even with an embedded certificate; foreign key => SignatureError; with the setting off the embedded certificates are used iff metadata yields none; (2) the model of the issuer-selection step of _check_signature (element's own Issuer, stripped, first; the issuer= argument only when the element names nobody) and of every call site with the argument it passes (correctly_signed_response / correctly_signed_message / _assertion: none; decrypt_assertions: none for response-level EncryptedAssertions, the enclosing assertion's Issuer for encrypted advice; direct callers: anything): the candidate certificates are those of the signed element's OWN Issuer whenever it has one, at every site and for every argument (C03_own_issuer_decides, C03_call_sites, C03_accepted_under_own_issuer); for a whole response document run through the entry point with its two retries (C03_document, induction over the assertion lists): every signed element of an accepted document - Response, plain assertion, assertion inside EncryptedAssertion, assertion inside encrypted Advice - was signed with a key trusted for ITS OWN issuer, an advice assertion without Issuer being the only element judged under another element's name; (3) histories (C03_history_*, induction over operation sequences on any set of long-lived clients, any starting state): the n-th outcome equals the outcome of that operation on that client alone. The loop is the C20 model instantiated with a tool that reports success iff the certificate holds the signer's key. Tie: generated federations x issuer x key x embedded x setting; places x outer issuer x own issuer x key x embedded x setting; direct calls x own x argument; seven message kinds; seeded operation sequences over five clients with conflicting metadata - each on implementation (real RSA through the stand-in, real ciphertexts) and model.",
+    "note": "Trusted: Coq kernel + vm_compute; hand-written models tied to the code by correspondence (exhaustive over the listed finite products in the thorough tier; the quick tier drops the listed slices); stand-in xmlsec1 verifies with the certificate file pysaml2 hands it; certificates are identified with their keys (cert n holds key n); certificate-chain validation (cert_handler) is off as in the default configuration; want_assertions_or_response_signed off (C02/C04); plain (unencrypted) assertions inside an Advice are not verified by the library at all and are outside the statement.",
+    "technique": "machine-checked proof (Coq, induction over metadata lists, assertion lists and operation sequences) + correspondence over generated federations, documents and histories + oracle",
 }
-TRUSTED = ["modelled: MetaData.certs/extract_certs, MetadataStore.__getitem__ (first entity with the id), certificate selection and loop of SecurityContext._check_signature",
-           "stand-in xmlsec1 (real RSA signatures; key given on the command line only)"]
+TRUSTED = ["modelled: MetaData.certs/extract_certs, MetadataStore.__getitem__ (first entity with the id), issuer selection, certificate selection and loop of SecurityContext._check_signature, the issuer= argument of every call site, the order of signature checks in correctly_signed_response / parse_assertion / decrypt_assertions and the two retries of Entity._parse_response",
+           "stand-in xmlsec1 (real RSA signatures and ciphertexts; key given on the command line only)"]
 ASSUMPTIONS = ["symbolic signature: verifies under a certificate iff it holds the signer's key and the content is unmodified"]
-RULE = ("IdP-1 key-descriptor layouts (11, incl. both orders of signing/encryption descriptors, use-less, two certs, none) x claimed issuer {idp1, idp2, unknown, absent} x "
-        "signing key {idp, idp2, other, sp2, sp} x embedded KeyInfo {signer's cert, none} x only_use_keys_in_metadata {on, off, unset(default)}; non-trivial = every cell")
+RULE = ("(1) IdP-1 key-descriptor layouts (11) x claimed issuer {idp1, idp2, unknown, absent, prefix-of-idp1, upper-case idp1} x signing key {idp, idp2, other, sp2, sp} x embedded KeyInfo {signer's cert, none} x "
+        "only_use_keys_in_metadata {on, off, unset}; (2) place {plain, encrypted, advice-of-plain, advice-of-encrypted} x outer (issuer, own signature) {idp1, idp2, unknown, idp1 signed, idp2 signed} x "
+        "own issuer {idp1, idp2, unknown, absent, idp1 in white space} x key x embedded x clients {layout x setting}; (3) direct check_signature/_check_signature on assertion/response: own issuer (10 spellings) x "
+        "issuer= argument (6) x key x embedded {own, none, issuer's real cert} x clients incl. one without metadata; (4) 7 message kinds x issuer x key x embedded x clients; (5) seeded operation sequences + all ordered "
+        "client pairs x site, over 5 long-lived clients (same entity ids, conflicting keys; two objects with equal configuration); non-trivial = every cell")
 
 KEYS = ["idp", "idp2", "other", "sp2", "sp", "md"]
 KID = {k: i + 1 for i, k in enumerate(KEYS)}
@@ -42,6 +53,12 @@ LAYOUTS = {
     "enc-only-other": [("encryption", ["other"])],
 }
 IDP2_LAYOUT = [("signing", ["idp2"]), ("encryption", ["sp2"])]
+UNKNOWN_ID = "https://unknown.example.org/idp"
+ISSUERS = {"idp1": IDP_ID, "idp2": IDP2_ID, "unknown": UNKNOWN_ID, "absent": None,
+           "prefix": IDP_ID[:-1], "upper": IDP_ID.upper()}
+# spellings of an Issuer's text ('' parses to an Issuer without text)
+SPELL = dict(ISSUERS, **{"idp1-ws": "\n  " + IDP_ID + "\t ", "idp2-nbsp": u" " + IDP2_ID + u" ", "idp1-inner-space": IDP_ID.replace("idp.", "idp .", 1),
+                         "empty": "", "blank": "  ", "suffix": IDP_ID + "/"})
 
 
 def idp_md(entity_id, layout):
@@ -79,10 +96,14 @@ def sp_for(lname, only_md):
 
 
 def md_coq(lname):
+    return fed_coq([(IDP_ID, LAYOUTS[lname]), (IDP2_ID, IDP2_LAYOUT)])
+
+
+def fed_coq(fed):
     def ent(layout):
         return "[" + clist(layout, lambda kd: "{| kd_use := %s; kd_certs := %s |}" % (
             copt(kd[0], cstr), clist(kd[1], lambda c: "%d" % KID[c]))) + "]"
-    return "[(%s, %s); (%s, %s)]" % (cstr(IDP_ID), ent(LAYOUTS[lname]), cstr(IDP2_ID), ent(IDP2_LAYOUT))
+    return clist(fed, lambda el: "(%s, %s)" % (cstr(el[0]), ent(el[1])))
 
 
 def build_signed(issuer, key, embed):
@@ -93,61 +114,263 @@ def build_signed(issuer, key, embed):
     return resp.signer(key).sign_statement(str(r), node_name=class_name(r), node_id=r.id)
 
 
+# ---------------------------------------------------------------------------------------------
+# clients (long-lived Saml2Client objects) described by data: federation, settings
+# ---------------------------------------------------------------------------------------------
+def CL(name, fed, only_md=True, wrs=False, was=False):
+    """fed: [(entity id, layout)]; only_md: True | False | None (unset: the default, on)"""
+    return dict(name=name, fed=[(e, [(u, list(cs)) for u, cs in l]) for e, l in fed], only_md=only_md, wrs=wrs, was=was)
+
+
+def std_fed(lname):
+    return [(IDP_ID, LAYOUTS[lname]), (IDP2_ID, IDP2_LAYOUT)]
+
+
+_clients = {}
+
+
+def make_client(cl):
+    over = {"sp": {"want_response_signed": cl["wrs"], "want_assertions_signed": cl["was"]}}
+    if cl["only_md"] is not None:
+        over["only_use_keys_in_metadata"] = cl["only_md"]
+    return env.make_sp(idp_md=[idp_md(e, l) for e, l in cl["fed"]], **over)
+
+
+def client(cl):
+    if cl["name"] not in _clients:
+        _clients[cl["name"]] = make_client(cl)
+    return _clients[cl["name"]]
+
+
+def only_on(cl):
+    return True if cl["only_md"] is None else cl["only_md"]
+
+
+def vcfg_coq(cl):
+    return "{| v_mp := %s; v_md := %s; v_only_md := %s |}" % (cbool(bool(cl["fed"])), fed_coq(cl["fed"]), cbool(only_on(cl)))
+
+
+def pcfg_coq(cl):
+    return "{| pc_d := {| dc_v := %s; dc_wrs := %s |}; pc_was := %s |}" % (vcfg_coq(cl), cbool(cl["wrs"]), cbool(cl["was"]))
+
+
+def iss_coq(raw):
+    """the Issuer a parser (or a caller) produces from text `raw`: None -> no Issuer; '' -> Issuer without text"""
+    if raw is None:
+        return "None"
+    if raw == "":
+        return "(Some None)"
+    return "(Some (Some %s))" % cstr(raw)
+
+
+def selem_coq(e):
+    if not e.get("key"):
+        sig = "None"
+    else:
+        emb = D.embedded_key(e)
+        sig = "(Some (%s, %d))" % (clist([emb] if emb else [], lambda c: "%d" % KID[c]), KID[e["key"]])
+    return "{| se_issuer := %s; se_sig := %s |}" % (iss_coq(e["issuer"]), sig)
+
+
+def asrt_coq(e):
+    return "{| as_elem := %s; as_advice := %s |}" % (selem_coq(e), clist(e.get("advice", []), selem_coq))
+
+
+def doc_coq(d):
+    return "{| d_resp := %s; d_plain := %s; d_enc := %s |}" % (selem_coq(d["resp"]), clist(d["plain"], asrt_coq), clist(d["enc"], asrt_coq))
+
+
+# ---------------------------------------------------------------------------------------------
+# the property, from the data alone (no model, no library code)
+# ---------------------------------------------------------------------------------------------
+def _text(raw):
+    return None if raw in (None, "") else raw.strip()
+
+
+def effective_issuer(own, arg):
+    t = _text(own)
+    return t if t is not None else _text(arg)
+
+
+def signing_certs(fed, name):
+    for eid, layout in fed:
+        if eid == name:
+            return [c for use, certs in layout if use in ("signing", None) for c in certs]
+    return None
+
+
+def want_elem(cl, e, arg=None):
+    """must a signature on element e (checked with fallback issuer `arg`) be accepted by client cl?"""
+    eff = effective_issuer(e["issuer"], arg)
+    s = (signing_certs(cl["fed"], eff) if eff is not None else None) or []
+    if only_on(cl) or s:
+        return e["key"] in s
+    return D.embedded_key(e) == e["key"]
+
+
+def why_not(cl, e, arg=None):
+    eff = effective_issuer(e["issuer"], arg)
+    s = signing_certs(cl["fed"], eff) if eff is not None else None
+    if s is None:
+        return "issuer %r absent from metadata" % (eff,)
+    return "key %r is not a signing key of %r in metadata (%r)" % (e["key"], eff, s)
+
+
+def want_doc(cl, d):
+    """(accept?, first offending element description)"""
+    r = d["resp"]
+    if r.get("key"):
+        if not want_elem(cl, r):
+            return False, ("response", r, None)
+    elif cl["wrs"]:
+        return False, ("response-unsigned", r, None)
+    for place, lst in (("plain", d["plain"]), ("encrypted", d["enc"])):
+        for a in lst:
+            if a.get("key"):
+                if not want_elem(cl, a):
+                    return False, (place, a, None)
+            elif cl["was"]:
+                return False, (place + "-unsigned", a, None)
+            for x in a.get("advice", []):
+                if x.get("key") and not want_elem(cl, x, a["issuer"]):
+                    return False, ("advice-of-" + place, x, a["issuer"])
+    return True, None
+
+
+def spelling_name(raw):
+    for k, v in SPELL.items():
+        if v == raw:
+            return k
+    return repr(raw)
+
+
+def e2e_verdict(sp, xml):
+    got = resp.observe(sp, xml, outstanding={"req-1": "/x"})
+    return isinstance(got, list), got
+
+
+def V(accepted):
+    return True if accepted else Exn("rejected")
+
+
+# ---------------------------------------------------------------------------------------------
+# operations on a client as data (what histories and replays are made of)
+#   dict(op="doc", doc=D) | dict(op="direct", elem_kind=, elem=E, arg=raw, entry=) | dict(op="message", message=kind, elem=E)
+# ---------------------------------------------------------------------------------------------
+def run_op(sp, g):
+    if g["op"] == "doc":
+        return e2e_verdict(sp, doc_xml(g["doc"]))
+    if g["op"] == "direct":
+        return direct_call(sp, g["elem_kind"], g["elem"], g["arg"], g["entry"])
+    got = call(getattr(sp.sec, "correctly_signed_" + g["message"]), message_xml(g["message"], g["elem"]), must=True)
+    return not isinstance(got, Exn), got
+
+
+_trail = {}          # client name -> operations run on that long-lived object so far
+_analysed = [0]
+
+
+def remember(cl, g):
+    _trail.setdefault(cl["name"], []).append(g)
+
+
+def history_of_failure(cl, accepted):
+    """the last operation on long-lived client cl came out as `accepted` against the rule.  Is that its outcome on a
+    fresh client object too?  If not: the shortest suffix of the client's operations that reproduces it (None when
+    not analysed / not history-dependent)."""
+    trail = _trail.get(cl["name"], [])
+    if not trail or _analysed[0] >= 4:
+        return None
+    _analysed[0] += 1
+    alone, _ = run_op(make_client(cl), trail[-1])
+    if alone == accepted:
+        return None
+    for n in (2, 3, 5, 9, 33, len(trail)):
+        ops = trail[-n:]
+        sp = make_client(cl)
+        for g in ops:
+            last, _ = run_op(sp, g)
+        if last == accepted or n >= len(trail):
+            return [dict(g, client=0) for g in ops]
+    return None
+
+
+def report(ctx, cl, accepted, key, what, payload, site):
+    """oracle failure for the last remembered operation of cl; histories get their own key and a replayable sequence"""
+    ops = history_of_failure(cl, accepted)
+    if ops is not None:
+        ctx.oracle_fail("history-leak:%s:%s" % (site, "accepts" if accepted else "refuses"),
+                        "%s — but only after the %d operations before it on the same long-lived client; on a fresh client object the outcome is the other one" % (what, len(ops) - 1),
+                        dict(kind="history", clients=[cl], ops=ops, want=not accepted, alone=not accepted))
+    else:
+        ctx.oracle_fail(key, what, payload)
+
+
+# ---------------------------------------------------------------------------------------------
 def run(ctx):
     env.tool_inprocess(True)
+    _trail.clear()
+    _analysed[0] = 0
+    with env.Clock(NOW):
+        import time
+        for u in (unit_response_level, unit_certs, unit_documents, unit_direct, unit_messages, unit_history):
+            t0 = time.time()
+            u(ctx)
+            ctx.notes.append("%s: %.1fs" % (u.__name__, time.time() - t0))
+    ctx.exhaustive = not ctx.quick
+
+
+def unit_response_level(ctx):
     cases = []
     n = 0
-    issuers = {"idp1": IDP_ID, "idp2": IDP2_ID, "unknown": "https://unknown.example.org/idp", "absent": None}
-    with env.Clock(NOW):
-        docs = {}
-        for lname, (iname, issuer), key, embed, only_md in itertools.product(
-                LAYOUTS, issuers.items(), ["idp", "idp2", "other", "sp2", "sp"], [True, False], [True, False, None]):
-            if ctx.quick and only_md is None and (key not in ("idp", "other") or lname not in ("signing", "none", "enc-only-other")):
-                continue
-            dk = (issuer, key, embed)
-            if dk not in docs:
-                docs[dk] = build_signed(issuer, key, key if embed else None)
-            xml = docs[dk]
-            sp = sp_for(lname, only_md)
-            e2e = resp.observe(sp, xml, outstanding={"req-1": "/x"})
-            from core import call
-            got = call(sp.sec.correctly_signed_response, xml, require_response_signature=True)
-            accepted = not isinstance(got, Exn)
-            impl = True if accepted else Exn("rejected")
-            if isinstance(e2e, list) and not accepted:
-                ctx.oracle_fail("e2e-accepts-what-signature-check-refuses:%s" % lname, "SP accepted a response whose signature check raises", dict(layout=lname))
-            if accepted and not isinstance(e2e, list) and iname != "absent":
-                ctx.oracle_fail("e2e-refuses-verified:%s:%s" % (iname, lname), "signature check passes but the SP refuses the response (%s)" % (e2e,), dict(layout=lname, issuer=iname))
-            only = True if only_md is None else only_md
-            coq = "(true, %s, %s, %s, %s, %d)" % (md_coq(lname), copt(issuer, cstr), cbool(only),
-                                                  clist([key] if embed else [], lambda c: "%d" % KID[c]), KID[key])
-            cell = dict(layout=lname, issuer=iname, key=key, embedded=embed, only_md=only_md)
-            cases.append(dict(id=n, coq=coq, impl=impl, show=cell))
-            n += 1
-            ctx.nontriv(tuple(cell.items()))
-            ctx.count("accepted" if accepted else "rejected:" + got.name)
-            # oracle: the property, from the layout alone
-            layout = LAYOUTS[lname] if iname == "idp1" else IDP2_LAYOUT if iname == "idp2" else None
-            signing = [] if layout is None else [c for use, certs in layout if use in ("signing", None) for c in certs]
-            if only:
-                want = key in signing
-            else:
-                want = (key in signing) if signing else bool(embed)
-            if accepted and not want:
-                why = ("encryption-only or foreign key" if layout is not None and signing else "issuer has no signing key in metadata") if layout is not None else "issuer absent from metadata"
-                ctx.oracle_fail("trusted-foreign-key:%s:only_md=%s:layout=%s:embedded=%s" % (iname, only_md, lname, embed),
-                                "signature by key %r accepted for issuer %s (%s; layout %s; embedded=%s; only_use_keys_in_metadata=%s)" % (
-                                    key, iname, why, lname, embed, only_md), cell)
-            if not accepted and want:
-                ctx.oracle_fail("issuer-key-refused:%s:%s" % (iname, lname), "valid signature by the issuer's own signing key %r refused (%s)" % (key, got), cell)
-            if n % 300 == 0:
-                ctx.sample(dict(cell=cell, outcome=got if not accepted else "accepted", end_to_end=e2e))
-    ctx.exhaustive = not ctx.quick
+    docs = {}
+    for lname, (iname, issuer), key, embed, only_md in itertools.product(
+            LAYOUTS, ISSUERS.items(), ["idp", "idp2", "other", "sp2", "sp"], [True, False], [True, False, None]):
+        if ctx.quick and only_md is None and (key not in ("idp", "other") or lname not in ("signing", "none", "enc-only-other")):
+            continue
+        if ctx.quick and iname in ("prefix", "upper") and (key not in ("idp", "other") or lname not in ("signing", "none", "two-certs", "useless")):
+            continue
+        dk = (issuer, key, embed)
+        if dk not in docs:
+            docs[dk] = build_signed(issuer, key, key if embed else None)
+        xml = docs[dk]
+        sp = sp_for(lname, only_md)
+        e2e = resp.observe(sp, xml, outstanding={"req-1": "/x"})
+        got = call(sp.sec.correctly_signed_response, xml, require_response_signature=True)
+        accepted = not isinstance(got, Exn)
+        impl = True if accepted else Exn("rejected")
+        if isinstance(e2e, list) and not accepted:
+            ctx.oracle_fail("e2e-accepts-what-signature-check-refuses:%s" % lname, "SP accepted a response whose signature check raises", dict(layout=lname))
+        if accepted and not isinstance(e2e, list) and iname != "absent":
+            ctx.oracle_fail("e2e-refuses-verified:%s:%s" % (iname, lname), "signature check passes but the SP refuses the response (%s)" % (e2e,), dict(layout=lname, issuer=iname))
+        only = True if only_md is None else only_md
+        coq = "(true, %s, %s, %s, %s, %d)" % (md_coq(lname), copt(issuer, cstr), cbool(only),
+                                              clist([key] if embed else [], lambda c: "%d" % KID[c]), KID[key])
+        cell = dict(layout=lname, issuer=iname, key=key, embedded=embed, only_md=only_md)
+        cases.append(dict(id=n, coq=coq, impl=impl, show=cell))
+        n += 1
+        ctx.nontriv(tuple(cell.items()))
+        ctx.count("accepted" if accepted else "rejected:" + got.name)
+        # oracle: the property, from the layout alone
+        layout = LAYOUTS[lname] if iname == "idp1" else IDP2_LAYOUT if iname == "idp2" else None
+        signing = [] if layout is None else [c for use, certs in layout if use in ("signing", None) for c in certs]
+        if only:
+            want = key in signing
+        else:
+            want = (key in signing) if signing else bool(embed)
+        if accepted and not want:
+            why = ("encryption-only or foreign key" if layout is not None and signing else "issuer has no signing key in metadata") if layout is not None else "issuer absent from metadata"
+            ctx.oracle_fail("trusted-foreign-key:%s:only_md=%s:layout=%s:embedded=%s" % (iname, only_md, lname, embed),
+                            "signature by key %r accepted for issuer %s (%s; layout %s; embedded=%s; only_use_keys_in_metadata=%s)" % (
+                                key, iname, why, lname, embed, only_md), cell)
+        if not accepted and want:
+            ctx.oracle_fail("issuer-key-refused:%s:%s" % (iname, lname), "valid signature by the issuer's own signing key %r refused (%s)" % (key, got), cell)
+        if n % 300 == 0:
+            ctx.sample(dict(cell=cell, outcome=got if not accepted else "accepted", end_to_end=e2e))
     ctx.correspond("check_signature_cert_selection", "Model.Sigver Model.CertSelect",
                    "fun c : bool * mdstore * option str * bool * list N * N => match c with (mp, m, i, o, e, s) => "
                    "match check_signature mp m i o e s with Ok _ => VB true | Err _ => VE (s2l \"rejected\") end end",
                    "(bool * mdstore * option str * bool * list N * N)", cases, shard=300)
-    unit_certs(ctx)
 
 
 def unit_certs(ctx):
@@ -155,7 +378,7 @@ def unit_certs(ctx):
     cases = []
     for lname in LAYOUTS:
         sp = sp_for(lname, True)
-        for ent, use in itertools.product([IDP_ID, IDP2_ID, "https://unknown.example.org/idp"], ["signing", "encryption"]):
+        for ent, use in itertools.product([IDP_ID, IDP2_ID, UNKNOWN_ID, IDP_ID[:-1], IDP_ID.upper(), IDP_ID + "/"], ["signing", "encryption"]):
             try:
                 got = sp.metadata.certs(ent, "any", use)
                 b64 = {env.cert_b64(k).replace("\n", ""): KID[k] for k in KEYS}
@@ -170,14 +393,365 @@ def unit_certs(ctx):
                    "(mdstore * option str * str)", cases)
 
 
+# ---------------------------------------------------------------------------------------------
+# (2) documents: the signed element inside something else
+# ---------------------------------------------------------------------------------------------
+_xml = {}
+
+
+def doc_xml(d):
+    k = json.dumps(d, sort_keys=True)
+    if k not in _xml:
+        _xml[k] = D.render_doc(copy.deepcopy(d))
+    return _xml[k]
+
+
+PLACES = ["plain", "encrypted", "advice-of-plain", "advice-of-encrypted"]
+OUTER = [("idp1", None), ("idp2", None), ("unknown", None), ("idp1", "idp"), ("idp2", "idp2")]
+
+
+def place_doc(place, outer, okey, inner):
+    """one document: `inner` (the element under test) at `place`, inside an element of issuer `outer` (signed with okey or not)"""
+    if place == "plain":
+        return dict(resp=E(outer, okey), plain=[inner], enc=[])
+    if place == "encrypted":
+        return dict(resp=E(outer, okey), plain=[], enc=[inner])
+    encl = E(outer, okey, advice=[inner])
+    if place == "advice-of-plain":
+        return dict(resp=E(IDP_ID), plain=[encl], enc=[])
+    return dict(resp=E(IDP_ID), plain=[], enc=[encl])
+
+
+def doc_clients(ctx):
+    cls = []
+    for lname, only_md in ([("enc+sign", True), ("none", True), ("none", False)] if ctx.quick else
+                           [(l, o) for l in LAYOUTS for o in (True, False)] + [("signing", None)]):
+        cls.append(CL("doc:%s:%s" % (lname, only_md), std_fed(lname), only_md=only_md))
+    cls.append(CL("doc:signing:was", std_fed("signing"), was=True))
+    cls.append(CL("doc:signing:wrs", std_fed("signing"), wrs=True))
+    return cls
+
+
+def unit_documents(ctx):
+    cases = []
+    inners = ["idp1", "idp2", "unknown", "absent", "idp1-ws"]
+    keys = ["idp", "idp2", "other", "sp"] + ([] if ctx.quick else ["sp2"])
+    cls = doc_clients(ctx)
+    for place, (oname, okey), iname, key, embed in itertools.product(PLACES, OUTER, inners, keys, [True, False]):
+        if ctx.quick and place.startswith("advice") and (oname, okey) == ("idp1", "idp"):
+            continue
+        inner = E(SPELL[iname], key, embed=embed)
+        d = place_doc(place, ISSUERS[oname], okey, inner)
+        xml = None
+        for cl in cls:
+            if ctx.quick and only_on(cl) and not embed:
+                continue        # the embedded certificate is not looked at with the setting on (covered at response level)
+            if ctx.quick and (cl["was"] or cl["wrs"]) and (key not in ("idp", "idp2") or iname not in ("idp1", "idp2") or oname == "unknown"):
+                continue
+            g = dict(op="doc", doc=d)
+            remember(cl, g)
+            accepted, got = run_op(client(cl), g)
+            cell = dict(client=cl, place=place, outer=oname, outer_signed=okey, own=iname, key=key, embedded=embed)
+            cases.append(dict(id=len(cases), coq="(%s, %s)" % (pcfg_coq(cl), doc_coq(d)), impl=V(accepted),
+                              show=dict(cell, client=cl["name"])))
+            ctx.nontriv(("doc", cl["name"], place, oname, okey, iname, key, embed))
+            ctx.count("doc:%s:%s" % (place, "accepted" if accepted else "rejected"))
+            want, off = want_doc(cl, d)
+            payload = dict(kind="doc", client=cl, doc=d, want=want, cell=dict(cell, client=cl["name"]))
+            if accepted and not want:
+                where, el, arg = off
+                report(ctx, cl, accepted, "nested-foreign-key:%s:own=%s:outer=%s%s:only_md=%s:fed=%s" % (
+                                    place, iname, oname, "+signed" if okey else "", cl["only_md"], cl["name"].split(":")[1]),
+                                "document accepted although its %s element (own Issuer %r%s) is signed with key %r: %s" % (
+                                    where, el["issuer"], "" if arg is None else ", enclosing Issuer %r" % arg, el.get("key"),
+                                    why_not(cl, el, arg) if el.get("key") else "a signature is required"), payload, place)
+            if not accepted and want:
+                report(ctx, cl, accepted, "nested-own-key-refused:%s:own=%s:outer=%s:fed=%s" % (place, iname, oname, cl["name"].split(":")[1]),
+                                "every signed element of the document is admitted by the rule (its own issuer's signing key, or the embedded certificate where the setting allows the fallback), yet the SP refuses (%s)" % (got,), payload, place)
+            if len(cases) % 700 == 0:
+                ctx.sample(dict(cell=dict(cell, client=cl["name"]), outcome=got if not accepted else "accepted"))
+    ctx.correspond("documents_issuer_of_nested_element", "Model.Sigver Model.CertSelect Model.IssuerSel",
+                   "fun c : pcfg * doc => show_verdict (parse_doc (fst c) (snd c))", "(pcfg * doc)", cases, shard=250)
+
+
+# ---------------------------------------------------------------------------------------------
+# (3) direct calls with an issuer= argument
+# ---------------------------------------------------------------------------------------------
+def direct_clients(ctx):
+    cls = [CL("direct:signing:on", std_fed("signing")),
+           CL("direct:none:off", std_fed("none"), only_md=False), CL("direct:nometadata:off", [], only_md=False),
+           CL("direct:none:on", std_fed("none"))]
+    if not ctx.quick:
+        cls += [CL("direct:%s:%s" % (l, o), std_fed(l), only_md=o) for l in ("two-descriptors", "enc+sign", "useless", "encryption-only") for o in (True, False)]
+        cls.append(CL("direct:signing:off", std_fed("signing"), only_md=False))
+        cls.append(CL("direct:nometadata:on", []))
+    return cls
+
+
+def direct_item(kind, e):
+    """(xml text, parsed element) of a stand-alone signed element"""
+    k = ("direct", kind, json.dumps(e, sort_keys=True))
+    if k not in _xml:
+        e = dict(e, id="a-1")
+        if kind == "assertion":
+            _xml[k] = D.render_assertion(e)
+        else:
+            _xml[k] = D.render_doc(dict(resp=dict(e, advice=[]), plain=[E(IDP_ID)], enc=[]))
+    xml = _xml[k]
+    if ("item",) + k not in _xml:
+        _xml[("item",) + k] = saml.assertion_from_string(xml) if kind == "assertion" else samlp.response_from_string(xml)
+    return xml, _xml[("item",) + k]
+
+
+def issuer_arg(raw):
+    return None if raw is None else saml.Issuer(text=raw or None)
+
+
+def direct_call(sp, kind, e, arg_raw, entry):
+    xml, item = direct_item(kind, e)
+    if entry == "check_signature":
+        got = call(sp.sec.check_signature, item, class_name(item), xml, issuer=issuer_arg(arg_raw))
+    else:
+        got = call(sp.sec._check_signature, xml, item, class_name(item), issuer=issuer_arg(arg_raw))
+    return not isinstance(got, Exn), got
+
+
+def unit_direct(ctx):
+    cases = []
+    owns = ["idp1", "idp2", "unknown", "absent", "empty", "blank", "idp1-ws", "idp2-nbsp", "idp1-inner-space", "prefix", "upper", "suffix"]
+    args = ["absent", "idp1", "idp2", "unknown", "empty", "idp2-nbsp"]
+    keys = ["idp", "idp2", "other"] + ([] if ctx.quick else ["sp", "sp2"])
+    cls = direct_clients(ctx)
+    i = 0
+    for kind, oname, key, embed in itertools.product(["assertion", "response"], owns, keys, [True, None, "idp"]):
+        if embed == "idp" and key != "other":
+            continue            # the issuer's REAL certificate in KeyInfo, signature by somebody else
+        e = E(SPELL[oname], key, embed=embed)
+        for aname, cl in itertools.product(args, cls):
+            if ctx.quick and only_on(cl) and embed is None:
+                continue
+            if ctx.quick and oname in ("prefix", "upper", "suffix", "idp1-inner-space") and aname not in ("absent", "idp1"):
+                continue
+            i += 1
+            entries = ["check_signature", "_check_signature"] if not ctx.quick else [["check_signature", "_check_signature"][i % 2]]
+            for entry in entries:
+                g = dict(op="direct", elem_kind=kind, elem=e, arg=SPELL[aname], entry=entry)
+                remember(cl, g)
+                accepted, got = run_op(client(cl), g)
+                cell = dict(client=cl["name"], entry=entry, kind=kind, own=oname, arg=aname, key=key, embedded=embed)
+                emb = D.embedded_key(e)
+                cases.append(dict(id=len(cases), coq="(%s, %s, %s, %s, %d)" % (vcfg_coq(cl), iss_coq(SPELL[aname]), iss_coq(SPELL[oname]),
+                                                                               clist([emb] if emb else [], lambda c: "%d" % KID[c]), KID[key]),
+                                  impl=V(accepted), show=cell))
+                ctx.nontriv(tuple(cell.items()))
+                ctx.count("direct:%s" % ("accepted" if accepted else "rejected:" + got.name))
+                want = want_elem(cl, e, SPELL[aname])
+                payload = dict(kind="direct", client=cl, elem=e, elem_kind=kind, arg=SPELL[aname], entry=entry, want=want, cell=cell)
+                if accepted and not want:
+                    report(ctx, cl, accepted, "direct-foreign-key:%s:%s:own=%s:arg=%s:only_md=%s:fed=%s" % (entry, kind, oname, aname, cl["only_md"], cl["name"].split(":")[1]),
+                                    "%s(%s with own Issuer %r, issuer=%r) accepts a signature by key %r: %s" % (
+                                        entry, kind, SPELL[oname], SPELL[aname], key, why_not(cl, e, SPELL[aname])), payload, "direct-" + kind)
+                if not accepted and want:
+                    report(ctx, cl, accepted, "direct-own-key-refused:%s:%s:own=%s:arg=%s:fed=%s" % (entry, kind, oname, aname, cl["name"].split(":")[1]),
+                           "%s refuses a signature by the signing key of the issuer it has to select (%s)" % (entry, got), payload, "direct-" + kind)
+                if len(cases) % 900 == 0:
+                    ctx.sample(dict(cell=cell, outcome=got if not accepted else "accepted"))
+    ctx.correspond("direct_issuer_argument", "Model.Sigver Model.CertSelect Model.IssuerSel",
+                   "fun c : vcfg * issuer_elem * issuer_elem * list N * N => match c with (v, arg, own, e, k) => "
+                   "show_verdict (check_at v SiteDirect None arg own e k) end",
+                   "(vcfg * issuer_elem * issuer_elem * list N * N)", cases, shard=400)
+
+
+# ---------------------------------------------------------------------------------------------
+# (4) stand-alone protocol messages through correctly_signed_<kind>
+# ---------------------------------------------------------------------------------------------
+def message_xml(kind, e):
+    k = ("msg", kind, json.dumps(e, sort_keys=True))
+    if k not in _xml:
+        _xml[k] = D.render_message(kind, e)
+    return _xml[k]
+
+
+def unit_messages(ctx):
+    cases = []
+    cls = [CL("msg:signing:on", std_fed("signing")), CL("msg:enc+sign:on", std_fed("enc+sign")), CL("msg:signing:off", std_fed("signing"), only_md=False),
+           CL("msg:none:off", std_fed("none"), only_md=False)]
+    for kind, iname, key, embed in itertools.product(sorted(D.MESSAGES), ["idp1", "idp2", "unknown", "absent", "idp1-ws"], ["idp", "idp2", "other"], [True, None]):
+        e = E(SPELL[iname], key, embed=embed)
+        for cl in cls:
+            if ctx.quick and only_on(cl) and embed is None:
+                continue
+            g = dict(op="message", message=kind, elem=e)
+            remember(cl, g)
+            accepted, got = run_op(client(cl), g)
+            cell = dict(client=cl["name"], message=kind, issuer=iname, key=key, embedded=embed)
+            emb = D.embedded_key(e)
+            cases.append(dict(id=len(cases), coq="(%s, %s, %s, %d)" % (vcfg_coq(cl), iss_coq(SPELL[iname]), clist([emb] if emb else [], lambda c: "%d" % KID[c]), KID[key]),
+                              impl=V(accepted), show=cell))
+            ctx.nontriv(tuple(cell.items()))
+            ctx.count("message:%s" % ("accepted" if accepted else "rejected:" + got.name))
+            want = want_elem(cl, e)
+            payload = dict(kind="message", client=cl, elem=e, message=kind, want=want, cell=cell)
+            if accepted and not want:
+                report(ctx, cl, accepted, "message-foreign-key:%s:issuer=%s:only_md=%s:fed=%s" % (kind, iname, cl["only_md"], cl["name"].split(":")[1]),
+                       "correctly_signed_%s accepts a signature by key %r for Issuer %r: %s" % (kind, key, SPELL[iname], why_not(cl, e)), payload, "message")
+            if not accepted and want:
+                report(ctx, cl, accepted, "message-own-key-refused:%s:issuer=%s:fed=%s" % (kind, iname, cl["name"].split(":")[1]),
+                       "correctly_signed_%s refuses a signature by the issuer's own signing key (%s)" % (kind, got), payload, "message")
+    ctx.correspond("message_sites", "Model.Sigver Model.CertSelect Model.IssuerSel",
+                   "fun c : vcfg * issuer_elem * list N * N => match c with (v, own, e, k) => "
+                   "show_verdict (check_at v SiteMessage None None own e k) end",
+                   "(vcfg * issuer_elem * list N * N)", cases, shard=400)
+
+
+# ---------------------------------------------------------------------------------------------
+# (5) histories over several long-lived clients
+# ---------------------------------------------------------------------------------------------
+def history_clients():
+    """same entity ids everywhere, conflicting keys: what is a valid signature for idp1 at one client is one for idp2 at the next"""
+    return [
+        CL("h0:std", [(IDP_ID, [("signing", ["idp"])]), (IDP2_ID, [("signing", ["idp2"])])]),
+        CL("h1:swapped", [(IDP_ID, [("signing", ["idp2"])]), (IDP2_ID, [("signing", ["idp"])])]),
+        CL("h2:other-off", [(IDP_ID, [("signing", ["other"])]), (IDP2_ID, [])], only_md=False),
+        CL("h3:std-again", [(IDP_ID, [("signing", ["idp"])]), (IDP2_ID, [("signing", ["idp2"])])]),
+        CL("h4:only-idp2", [(IDP2_ID, [("signing", ["other"]), ("encryption", ["idp"])])]),
+    ]
+
+
+H_SITES = ["response", "plain", "encrypted", "advice-of-plain", "advice-of-encrypted", "direct-assertion", "direct-response"]
+H_ISS = ["idp1", "idp2", "unknown"]
+H_KEYS = ["idp", "idp2", "other"]
+
+
+def h_op(ci, site, iname, key, embed=True, outer="idp2", arg="absent"):
+    return dict(client=ci, site=site, issuer=iname, key=key, embed=embed, outer=outer, arg=arg)
+
+
+def h_doc(o):
+    inner = E(SPELL[o["issuer"]], o["key"], embed=o["embed"])
+    if o["site"] == "response":
+        return dict(resp=inner, plain=[E(ISSUERS[o["outer"]])], enc=[])
+    return place_doc(o["site"], ISSUERS[o["outer"]], None, inner)
+
+
+def h_generic(o):
+    if "op" in o:
+        return o
+    if o["site"].startswith("direct-"):
+        return dict(client=o["client"], op="direct", elem_kind=o["site"][7:], elem=E(SPELL[o["issuer"]], o["key"], embed=o["embed"]),
+                    arg=SPELL[o["arg"]], entry="check_signature")
+    return dict(client=o["client"], op="doc", doc=h_doc(o))
+
+
+def h_run(sp, o):
+    return run_op(sp, h_generic(o))
+
+
+def h_want(cl, o):
+    if o["site"].startswith("direct-"):
+        return want_elem(cl, E(SPELL[o["issuer"]], o["key"], embed=o["embed"]), SPELL[o["arg"]])
+    return want_doc(cl, h_doc(o))[0]
+
+
+def h_coq(o):
+    if o["site"].startswith("direct-"):
+        return "(OpElem %d %s %s)" % (o["client"], iss_coq(SPELL[o["arg"]]), selem_coq(E(SPELL[o["issuer"]], o["key"], embed=o["embed"])))
+    return "(OpDoc %d %s)" % (o["client"], doc_coq(h_doc(o)))
+
+
+def history_sequences(ctx, ncl):
+    seqs = []
+    rng = ctx.rng
+    # structured: something is accepted at client X, then the same key turns up where it must not count
+    for site in H_SITES:
+        seq = []
+        for x, y in itertools.product(range(ncl), repeat=2):
+            for k in (H_KEYS[:2] if ctx.quick else H_KEYS):
+                seq.append(h_op(x, site, "idp1", k, arg="idp1"))
+                seq.append(h_op(y, site, "idp2", k, outer="idp1", arg="idp1"))
+                seq.append(h_op(y, "direct-response" if site == "response" and (x + y) % 2 else site,
+                                "absent" if (x + y) % 2 else "unknown", k, outer="idp1", arg="idp2" if x % 2 else "absent"))
+        seqs.append(seq)
+    # seeded random interleavings of every kind of operation on every client
+    for _ in range(4 if ctx.quick else 40):
+        seq = []
+        for _ in range(120):
+            o = h_op(rng.randrange(ncl), rng.choice(H_SITES), rng.choice(H_ISS + ["absent", "idp1-ws"]), rng.choice(H_KEYS),
+                     embed=rng.choice([True, True, None]), outer=rng.choice(H_ISS), arg=rng.choice(["absent", "idp1", "idp2", "unknown"]))
+            if o["site"] == "response" and o["issuer"] == "absent":
+                o["site"] = "direct-response"     # a Response without Issuer is refused end-to-end for reasons other than its signature
+            seq.append(o)
+        seqs.append(seq)
+    return seqs
+
+
+def unit_history(ctx):
+    cls = history_clients()
+    sps = [make_client(cl) for cl in cls]          # fresh objects: this unit's own process history
+    cases = []
+    for si, seq in enumerate(history_sequences(ctx, len(cls))):
+        outcomes = []
+        for j, o in enumerate(seq):
+            cl = cls[o["client"]]
+            accepted, got = h_run(sps[o["client"]], o)
+            outcomes.append(V(accepted))
+            ctx.nontriv(("history", si, j, tuple(sorted(o.items()))))
+            ctx.count("history:%s:%s" % (o["site"], "accepted" if accepted else "rejected"))
+            want = h_want(cl, o)
+            if accepted != want:
+                alone, _ = h_run(make_client(cl), o)
+                prev = seq[max(0, j - 3):j]
+                payload = dict(kind="history", clients=cls, ops=[h_generic(x) for x in seq[:j + 1]], want=want, alone=alone)
+                if alone == want:
+                    ctx.oracle_fail("history-leak:%s:%s" % (o["site"], "accepts" if accepted else "refuses"),
+                                    "operation %d of a sequence on long-lived clients (%s at client %s: Issuer %s, key %r) is %s, but %s on a fresh client; the operations before it: %s" % (
+                                        j, o["site"], cl["name"], o["issuer"], o["key"], "accepted" if accepted else "refused",
+                                        "accepted" if alone else "refused", json.dumps(prev)), payload)
+                else:
+                    ctx.oracle_fail("history-op:%s:%s:issuer=%s:client=%s" % (o["site"], "accepts" if accepted else "refuses", o["issuer"], cl["name"]),
+                                    "%s at client %s (Issuer %s, key %r, outer %s, issuer= %s) is %s, also on a new client object in this process (not history-dependent, or the state lives outside the client objects); the property wants %s" % (
+                                        o["site"], cl["name"], o["issuer"], o["key"], o["outer"], o["arg"], "accepted" if accepted else "refused",
+                                        "acceptance" if want else "refusal"), payload)
+        cases.append(dict(id=si, coq=clist(seq, h_coq), impl=outcomes, show=dict(sequence=si, operations=len(seq), first=seq[:3])))
+        if si in (0, len(H_SITES)):
+            ctx.sample(dict(history=si, operations=len(seq), first_operations=seq[:4], outcomes=outcomes[:4]))
+    ctx.correspond("histories_over_clients", "Model.Sigver Model.CertSelect Model.IssuerSel",
+                   "fun ops : list op => show_verdicts (snd (run_ops %s [] ops))" % clist(cls, pcfg_coq), "(list op)", cases, shard=1)
+
+
+# ---------------------------------------------------------------------------------------------
 def replay(ctx, payload):
     env.tool_inprocess(True)
-    cell = payload.get("input")
-    print("replay cell:", cell)
-    if not isinstance(cell, dict) or "layout" not in cell:
+    inp = payload.get("input")
+    print("replay:", payload.get("key"), "-", payload.get("what"))
+    if not isinstance(inp, dict):
         return 0
-    issuers = {"idp1": IDP_ID, "idp2": IDP2_ID, "unknown": "https://unknown.example.org/idp", "absent": None}
     with env.Clock(NOW):
-        xml = build_signed(issuers[cell["issuer"]], cell["key"], cell["key"] if cell["embedded"] else None)
-        print("implementation outcome:", resp.observe(sp_for(cell["layout"], cell["only_md"]), xml, outstanding={"req-1": "/x"}))
+        if "layout" in inp:                       # response-level cell
+            print("cell:", inp)
+            xml = build_signed(ISSUERS[inp["issuer"]], inp["key"], inp["key"] if inp["embedded"] else None)
+            print("implementation outcome:", resp.observe(sp_for(inp["layout"], inp["only_md"]), xml, outstanding={"req-1": "/x"}))
+        elif inp.get("kind") == "doc":
+            print("client:", inp["client"], "\ndocument:", inp["doc"])
+            xml = D.render_doc(copy.deepcopy(inp["doc"]))
+            print(xml[:3000])
+            print("implementation outcome (fresh client):", resp.observe(make_client(inp["client"]), xml, outstanding={"req-1": "/x"}), "- the property wants",
+                  "acceptance" if inp["want"] else "refusal")
+        elif inp.get("kind") == "direct":
+            print("client:", inp["client"], "\nelement:", inp["elem"], "issuer= argument:", repr(inp["arg"]))
+            print("implementation outcome (fresh client):", direct_call(make_client(inp["client"]), inp["elem_kind"], inp["elem"], inp["arg"], inp["entry"]),
+                  "- the property wants", "acceptance" if inp["want"] else "refusal")
+        elif inp.get("kind") == "message":
+            print("client:", inp["client"], "\nmessage:", inp["message"], inp["elem"])
+            got = call(getattr(make_client(inp["client"]).sec, "correctly_signed_" + inp["message"]), D.render_message(inp["message"], inp["elem"]), must=True)
+            print("implementation outcome (fresh client):", got if isinstance(got, Exn) else "accepted", "- the property wants", "acceptance" if inp["want"] else "refusal")
+        elif inp.get("kind") == "history":
+            sps = [make_client(cl) for cl in inp["clients"]]
+            for j, o in enumerate(inp["ops"]):
+                acc, got = h_run(sps[o["client"]], o)
+                if j >= len(inp["ops"]) - 4:
+                    print("op %d on long-lived client %s: %s -> %s" % (j, inp["clients"][o["client"]]["name"], json.dumps(o), "accepted" if acc else got))
+            o = inp["ops"][-1]
+            acc, got = h_run(make_client(inp["clients"][o["client"]]), o)
+            print("the last operation on a fresh client:", "accepted" if acc else got, "- the property wants", "acceptance" if inp["want"] else "refusal")
     return 0
